@@ -445,6 +445,8 @@ def run(repo, rep):
     _memo_rule(repo, rep, 'C07', 'C07.Z1')
     from ..pitfalls import log_rule as _log_rule
     _log_rule(repo, rep, 'C07', 'C07.Z2')
+    from ..api_pitfalls import truth_rule as _truth_rule
+    _truth_rule(repo, rep, 'C07', 'C07.Z4')
     fsm = repo.module('fsm')
     dec = repo.cls('fsm', 'DIMSEDecoder')
     proc = dec.find_method('process')
